@@ -39,18 +39,19 @@ FAULTS = {'closed': lambda: ConnectionClosed(0, 'closed'), 'channel': lambda: Ch
 class Logged(plumpy.Process):
     """Logs every call of the three control methods with its return value (what a remote request must boil down to)."""
 
-    def pause(self, msg_text: Optional[str] = None) -> Any:
-        ret = super().pause(msg_text)
+    # (whatever further arguments a method may take are passed through; the text is what the statement is about)
+    def pause(self, msg_text: Optional[str] = None, *args: Any, **kwargs: Any) -> Any:
+        ret = super().pause(msg_text, *args, **kwargs)
         programs.ENV.handler_log.append(('pause', (msg_text,), ret, programs.ENV.direct))
         return ret
 
-    def play(self) -> Any:
-        ret = super().play()
+    def play(self, *args: Any, **kwargs: Any) -> Any:
+        ret = super().play(*args, **kwargs)
         programs.ENV.handler_log.append(('play', (), ret, programs.ENV.direct))
         return ret
 
-    def kill(self, msg_text: Optional[str] = None) -> Any:
-        ret = super().kill(msg_text)
+    def kill(self, msg_text: Optional[str] = None, *args: Any, **kwargs: Any) -> Any:
+        ret = super().kill(msg_text, *args, **kwargs)
         programs.ENV.handler_log.append(('kill', (msg_text,), ret, programs.ENV.direct))
         return ret
 
@@ -137,11 +138,22 @@ class CommWorld(ctl.World):
 
         return run
 
+    def settle(self, final: bool = False) -> None:
+        if final or not self.loop.has_ready():
+            for rec in self.sent:
+                if rec['live_when_settled'] is None:
+                    rec['live_when_settled'] = self.proc is not None and not self.proc.has_terminated()
+
+    def options(self) -> List[Tuple[Any, str, Callable[[], None]]]:
+        self.settle()
+        return super().options()
+
     def deliver(self, op: tuple) -> Dict[str, Any]:
         proc = self.proc
         rec: Dict[str, Any] = {'op': op, 'live': not proc.has_terminated(), 'quiescent': not self.loop.has_ready(),
                                'reply': None, 'raised': None, 'n_handler': len(self.handler_log)}
         rec['n_status'] = sum(1 for r in self.sent if r['op'][1] == 'status' and r['raised'] is None)  # FIFO: i-th request, i-th report
+        rec['live_when_settled'] = None  # whether the process is still live at the first quiescent point after the send
         self.sent.append(rec)
         kind, intent = op[0], op[1]
         text = op[2] if len(op) > 2 else None
@@ -180,6 +192,11 @@ class CommWorld(ctl.World):
         except Exception as exc:  # noqa: BLE001
             rec['raised'] = exc
         return rec
+
+
+def is_subsequence(small: List[Any], big: List[Any]) -> bool:
+    it = iter(big)
+    return all(any(x == y for y in it) for x in small)
 
 
 def observations(w: CommWorld) -> Dict[str, Any]:
@@ -223,7 +240,9 @@ class Oracle:
         w.drain()
         feats = {'wrapped': w.wrapped}
         # (a) every delivered control message became exactly one call of the matching method with the matching arguments
+        w.settle(final=True)
         want_calls = []
+        optional: List[int] = []
         has_async = any(rec['op'][0] == 'actl' for rec in w.sent)
         for rec in w.sent:
             if rec['op'][0] == 'actl':
@@ -240,11 +259,20 @@ class Oracle:
                 continue
             op = rec['op']
             want_calls.append((op[1], (op[2],) if op[1] != 'play' else ()))
+            # a broadcast that was sent to a live process which terminated before the message got its turn: "a terminated
+            # process no longer receives messages" - handling it and dropping it are both fine
+            if op[0] == 'bc' and rec['live_when_settled'] is False:
+                optional.append(len(want_calls) - 1)
         got_calls = [(h[0], h[1]) for h in w.handler_log if not h[3]]
         if has_async:
             # tasks of the coroutine controller and plain sends interleave: compare as multisets
             want_calls, got_calls = sorted(want_calls, key=repr), sorted(got_calls, key=repr)
-        if got_calls != want_calls:
+        if optional and not has_async and got_calls != want_calls:
+            mandatory = [c for i, c in enumerate(want_calls) if i not in optional]
+            if not (is_subsequence(mandatory, got_calls) and is_subsequence(got_calls, want_calls)):
+                w.violate('a:handler-calls-differ', dict(feats, n_want=len(want_calls), n_got=len(got_calls)),
+                          {'want': want_calls, 'got': got_calls, 'optional': optional})
+        elif got_calls != want_calls:
             w.violate('a:handler-calls-differ', dict(feats, n_want=len(want_calls), n_got=len(got_calls)),
                       {'want': want_calls, 'got': got_calls})
         elif not has_async:
@@ -455,7 +483,8 @@ def check_broadcast_faults(progs: List[tuple]) -> Dict[str, Any]:
                                                       'detail': {'got': got[key], 'want': ref[key]}, 'case': case})
                             break
                     else:
-                        if got['announcements'] != want_ann:
+                        # (the failed announcement stays lost, or - a retry - is made after all: both leave the others alone)
+                        if got['announcements'] != want_ann and got['announcements'] != ref['announcements']:
                             out['violations'].append({'clause': 'd:other-announcements-changed', 'features': {'fault': name},
                                                       'detail': {'got': got['announcements'], 'want': want_ann}, 'case': case})
     return out
